@@ -776,8 +776,23 @@ def _while_variant(w, fi, cfg, st: ast.While):
             for x in ast.walk(st):
                 if isinstance(x, ast.Continue):
                     back_ok = back_ok and False
-            if incs and not others and back_ok and limit_ok and exact_cls:
+            # the number of iterations: the guard is the first statement of an iteration and sees
+            # c0 + (k-1)*inc in the k-th one, so `c < L` admits L - c0 iterations and `c <= L` admits
+            # L - c0 + 1: "no more than the limit" needs c0 >= 0 resp. c0 >= 1
+            inits = [x for x in ast.walk(fi.node) if isinstance(x, (ast.Assign, ast.AnnAssign)) and
+                     any(isinstance(t, ast.Name) and t.id == c for t in
+                         (x.targets if isinstance(x, ast.Assign) else [x.target]))
+                     and not any(x is y for y in ast.walk(st))]
+            init_vals = [x.value.value if isinstance(x.value, ast.Constant) and type(x.value.value) is int else None
+                         for x in inits]
+            need0 = 0 if isinstance(cond.ops[0], ast.Lt) else 1
+            start_ok = bool(init_vals) and all(v is not None and v >= need0 for v in init_vals)
+            if incs and not others and back_ok and limit_ok and exact_cls and start_ok:
                 return True, 'bounded-counter', ''
+            if incs and not others and back_ok and limit_ok and exact_cls and not start_ok:
+                return False, 'bounded-counter', (
+                    f'loop guard `{ast.unparse(cond)}` with the counter starting at '
+                    f'{[ast.unparse(x.value) for x in inits] or "an unknown value"} admits more iterations than the limit')
             why = 'iteration counter of the loop is not strictly increased on every path back to the guard'
             if not limit_ok:
                 why = f'loop bound `{ast.unparse(limit)}` is not a configured limit'
